@@ -1,7 +1,27 @@
-/- C11 line-protocol driver (core-only). Stub until the property's model lands. -/
+/- C11 line-protocol driver (core-only). -/
+import BV.Common.Hex
+import BV.Common.Sha256
+import BV.C11.Model
+import BV.C11.Spec
 namespace BV.C11.Driver
+open BV.Hex BV.Secp256k1 BV.C11
+
+def hex32 (v : Nat) : String := listToHex (toBE 32 v)
+
+def showSig : Option (Nat × Nat) → String
+  | some (r, s) => s!"ok {hex32 r} {hex32 s} {listToHex (serializeDER r s)}"
+  | none => "err"
 
 def handle : List String → String
-  | _ => "unimplemented"
+  | ["der", h] => match hexToList? h with
+    | some b => showSig (Spec.parseDER b)
+    | none => "bad-op"
+  | ["lax", h] => match hexToList? h with
+    | some b => showSig (parseLax b)
+    | none => "bad-op"
+  | ["ser", r, s] => match hexToNat? r, hexToNat? s with
+    | some r, some s => listToHex (serializeDER r s)
+    | _, _ => "bad-op"
+  | _ => "bad-op"
 
 end BV.C11.Driver
